@@ -17,11 +17,11 @@ CONSTANTS
   Mins = {0, 1}
   Liqs = {2}
   Donations = {}
-  DlOffs = {0, 1}
+  DlOffs = {1}
   MaxNow = 1
   Senders = {"u1"}
   Recipients = {"u1", "u2", "feepool"}
-  MaxSteps = 4
+  MaxSteps = 5
   WithUni = FALSE
 VIEW View
 CONSTRAINT DepthConstraint
